@@ -20,7 +20,12 @@ EvViol(e) ==
 TVStep == /\ l <= Len(Rec)
           /\ viol' = AddViol(viol, IF Rec[l].ev = "class" THEN EvViol(Rec[l]) ELSE {}, IF "id" \in DOMAIN Rec[l] THEN Rec[l].id ELSE -1)
           /\ judged' = judged + 1 /\ l' = l + 1
-TVNext == TVStep
+\* the process under test was killed by a signal while this case ran (recorded by the driver; `begin` marks the letter that
+\* was in progress): judged like any other observation -- whatever the property, an input that kills the process breaks it
+TVCrashAny == /\ l <= Len(Rec) /\ Rec[l].ev \in {"crash", "begin"}
+              /\ viol' = IF Rec[l].ev = "crash" THEN AddViol(viol, {"ANY/process-killed-by-signal-" \o Str(Rec[l].signal)}, Rec[l].id) ELSE viol
+              /\ l' = l + 1 /\ UNCHANGED judged
+TVNext == TVStep \/ TVCrashAny
 TVSpec == TVInit /\ [][TVNext]_tvars
 Post == PostOK
 Report == ReportAt(l, judged, viol)
